@@ -566,7 +566,7 @@ func TestVerif_C18_cluster(t *testing.T) {
 	r := kit.Start(t, "C18", "cluster")
 	defer r.Finish()
 	thorough := r.Thorough()
-	r.Rule("full product: every value of the generated Command_Type enum (JOIN as voter and as non-voter), each with a well-formed request, x every credentials file of <=2 entries over users {u (password p), *} x permission sets {none, each required permission alone, every required permission, `all`, every permission constant that is not required; thorough adds each non-required constant alone} (duplicate users included, last wins) loaded by the real auth.CredentialsStore x presentation {no credentials, u with a wrong password, u with the right password, unknown user}; the framed command is written as raw bytes to a real TCP connection of the real cluster.Service, the write side is closed and the socket is read until the service closes it. Oracle: C19 reference decision for the command's required permission(s); on deny no mock database/manager call, no database bytes (marker searched raw and in every embedded gzip stream, non-error response fields) anywhere in the byte stream, an error in the answer; on allow no \"unauthorized\". distinct = (command, expected, observed error class, calls, bytes-after-frame>0, marker)")
+	r.Rule("full product: every value of the generated Command_Type enum (JOIN as voter and as non-voter), each with a well-formed request, x every credentials file of <=2 entries over users {u (password p), *} x permission sets {none, each required permission alone, every required permission, `all`, every permission constant that is not required; thorough adds each non-required constant alone} (duplicate users included, last wins) loaded by the real auth.CredentialsStore x presentation {no credentials, u with a wrong password, u with the right password, unknown user}; the framed command is written as raw bytes to a real TCP connection of the real cluster.Service, the write side is closed and the socket is read until the service closes it. Oracle: C19 reference decision for the command's required permission(s); on deny no mock database/manager call, no database bytes (marker searched raw and in every embedded gzip stream, non-error response fields) anywhere in the byte stream, an error in the answer; on allow no \"unauthorized\". SEQUENCES: every ordered pair of commands over {EXECUTE, QUERY, REMOVE_NODE, BACKUP_STREAM} (thorough: over every judged command with a single requirement, plus every ordered triple over those four) sent on ONE connection, each command with each of 5 presentations {u right password, u wrong password, no credentials, unknown user, valid user v lacking the permission} against a credentials file in which u holds exactly the first command's permission(s) and v the others'; each command is written, its answer (and backup stream) read, the mock calls taken, then the next one; every command is judged alone by the same oracle on its own credentials. distinct = (command, expected, observed error class, calls, bytes-after-frame>0, marker) and per-sequence outcome vectors")
 	r.Assume("the command -> permission table is the one documented for rqlite's permissions (execute, query, both for the unified request, backup, load, remove, join for voters and for notify, join-read-only or join-read-replica for non-voters, leader-ops for stepdown); where the repository has no written table the constants' doc comments in auth/credential_store.go were used")
 	r.Assume("database and manager are recording mocks (every method records its call and returns marker data); the credential store is the real auth.CredentialsStore behind a delegating recorder")
 
@@ -587,10 +587,15 @@ func TestVerif_C18_cluster(t *testing.T) {
 	var replay *c18Case
 	if raw := kit.Replay(); raw != nil {
 		var x struct {
-			Case c18Case `json:"case"`
+			Case     c18Case     `json:"case"`
+			Sequence *c18SeqCase `json:"sequence"`
 		}
 		if err := json.Unmarshal(raw, &x); err != nil {
 			t.Fatalf("replay: %v", err)
+		}
+		if x.Sequence != nil {
+			c18Sequences(t, r, thorough, x.Sequence.id())
+			return
 		}
 		replay = &x.Case
 	}
@@ -716,6 +721,7 @@ func TestVerif_C18_cluster(t *testing.T) {
 	if replay != nil {
 		return
 	}
+	r.State(c18Sequences(t, r, thorough, ""))
 
 	// per-command report; vacuity guard: a judged command must have been seen acting when
 	// allowed, otherwise "no mock call on deny" proves nothing.
